@@ -37,17 +37,17 @@ ENTRIES = {
     },
     "C03": {
         "text": "Invariant theorem over all reachable states of the pool model: a live checkout that only waits for another request's connection attempt and whose channel is still empty is queued for its origin and the origin's attempt-in-progress marker is set - so whenever the marker goes away (attempt succeeded, failed, cancelled or abandoned at any point of any history) no waiter is left with an empty channel; with a delivered connection its next poll takes it, with a closed channel it gets an error (C03_waiter_only_while_attempt_in_flight, C03_waiter_poll). Step-level theorems for every state: the marker's owner going away releases every queued waiter (sender dropped = wake-up), a released pure waiter resolves with an error, a released dialer carries on, a checkout whose attempts have terminated never polls Pending. Second invariant over all reachable states (marker owner): whenever an origin's marker is in place, exactly the checkout that placed it (same attempt id) still runs - alive, or continued by a delayed-drop task - so a waiting request always waits for an attempt that exists (C03_marker_has_running_owner, C03_waiter_waits_for_running_attempt); nobody else cancels the marker (C03_only_owner_cancels). Proving it exposed a third defect (a stale marker holder cancelled a later attempt's marker), fixed in 2d583d3. Third invariant (a live pure waiter's channel is never receiver-gone or absent) and the composition C03_pending_waiter_waits_for_running_attempt: in every reachable state a pure waiter that polls Pending has an empty channel, is queued, the marker is in place and its owner runs; in every other case its poll resolves. Not proved: fairness of the runtime, i.e. that the running owner is eventually polled to completion (the drain phase of the runs checks it). Trace monitors: lost wake-up, stranded waiter (marker gone), waiter failed while its attempt is in flight, resolved dial not consumed, drain + probe phase. Three stranding defects found and fixed.",
-        "note": 'Trusted: Lean kernel; hand-written pool model tied to the real ConnectionPoolService by per-op differential runs (result, marker set, waiter queues, idle lists, dial and drop counters); tokio oneshot/scheduler semantics assumed; step-level theorems hold for every state, the global ownership invariant is stated in DESIGN.md as future work where not yet proved.',
+        "note": 'Trusted: Lean kernel; hand-written pool model tied to the real ConnectionPoolService by per-op differential runs (result, marker set, waiter queues, idle lists, dial and drop counters); tokio oneshot/scheduler semantics assumed; step-level theorems hold for every state; the reachable-state invariants are listed in DESIGN.md §4 together with what is not a theorem (runtime fairness, dial-count minimality).',
         "design_ref": "DESIGN.md §4",
     },
     "C04": {
         "text": 'Invariant theorem over all reachable states (marker owner): while an origin\'s attempt-in-progress marker is in place exactly one checkout is the attempt the others wait for, and attempt ids are never reused (C04_one_attempt_per_origin, C04_attempt_ids_distinct). Step-level theorems: a request issued while an open idle connection exists is equipped with it and dials nothing; a shareable connection stays pooled while checked out; with the marker set a new request becomes a pure waiter that never dials and owns no marker. Dial-count minimality over whole histories is not a theorem: trace monitors compare dial and drop counters with the model (extra dial, destroyed connection, shared connection unavailable). Four defects found and fixed (the last one by the invariant proof).',
-        "note": 'Trusted: Lean kernel; hand-written pool model tied to the real ConnectionPoolService by per-op differential runs (result, marker set, waiter queues, idle lists, dial and drop counters); tokio oneshot/scheduler semantics assumed; step-level theorems hold for every state, the global ownership invariant is stated in DESIGN.md as future work where not yet proved.',
+        "note": 'Trusted: Lean kernel; hand-written pool model tied to the real ConnectionPoolService by per-op differential runs (result, marker set, waiter queues, idle lists, dial and drop counters); tokio oneshot/scheduler semantics assumed; step-level theorems hold for every state; the reachable-state invariants are listed in DESIGN.md §4 together with what is not a theorem (runtime fairness, dial-count minimality).',
         "design_ref": "DESIGN.md §4",
     },
     "C05": {
         "text": 'Theorems for every idle list, clock and timeout: pop returns only an open, ready, unexpired connection, clears the list at the first expired entry, keeps order; none/zero timeout never expires; issue equips a checkout only with such a connection. Trace monitor for closed hand-outs; timed cases use the real clock.',
-        "note": 'Trusted: Lean kernel; hand-written pool model tied to the real ConnectionPoolService by per-op differential runs (result, marker set, waiter queues, idle lists, dial and drop counters); tokio oneshot/scheduler semantics assumed; step-level theorems hold for every state, the global ownership invariant is stated in DESIGN.md as future work where not yet proved.',
+        "note": 'Trusted: Lean kernel; hand-written pool model tied to the real ConnectionPoolService by per-op differential runs (result, marker set, waiter queues, idle lists, dial and drop counters); tokio oneshot/scheduler semantics assumed; step-level theorems hold for every state; the reachable-state invariants are listed in DESIGN.md §4 together with what is not a theorem (runtime fairness, dial-count minimality).',
         "design_ref": "DESIGN.md §4",
     },
     "C06": {
@@ -63,13 +63,13 @@ ENTRIES = {
         "design_ref": "DESIGN.md §4",
     },
     "C14": {
-        "text": 'Step-level theorems for every state: push delivers to the first live waiter; a checkout whose channel holds a connection takes it at its next poll whatever its dial is doing; a not-ready dialing checkout keeps listening; with continue_after_preemption the abandoned dial carries on in a background task, without it the channel is closed and the marker cleared. Defect (receiver dropped at first poll) found and fixed.',
-        "note": 'Trusted: Lean kernel; hand-written pool model tied to the real ConnectionPoolService by per-op differential runs (result, marker set, waiter queues, idle lists, dial and drop counters); tokio oneshot/scheduler semantics assumed; step-level theorems hold for every state, the global ownership invariant is stated in DESIGN.md as future work where not yet proved.',
+        "text": 'Invariant theorem over all reachable states (listeners queued): a checkout whose channel is still empty - it waits for its own dial or for somebody else\'s - is in the waiter queue of its own origin, so a non-shareable connection released for that origin while anybody is listening is put into a listening request\'s channel and not into the idle list (C14_listener_is_queued, C14_release_serves_a_listener). Step-level theorems for every state: push delivers to the first live waiter; a checkout whose channel holds a connection takes it at its next poll whatever its dial is doing; a not-ready dialing checkout keeps listening; with continue_after_preemption the abandoned dial carries on in a background task, without it the channel is closed and the marker cleared. Defect (receiver dropped at first poll) found and fixed.',
+        "note": 'Trusted: Lean kernel; hand-written pool model tied to the real ConnectionPoolService by per-op differential runs (result, marker set, waiter queues, idle lists, dial and drop counters); tokio oneshot/scheduler semantics assumed; step-level theorems hold for every state; the reachable-state invariants are listed in DESIGN.md §4 together with what is not a theorem (runtime fairness, dial-count minimality).',
         "design_ref": "DESIGN.md §4",
     },
     "C15": {
         "text": 'Invariant theorem: for every configuration, every operation sequence of any length and every origin, the idle list never exceeds max_idle_per_host, at every point of the history (proved through all 10 ops and every pool primitive). Implementation snapshots are checked against the limit after every op. Defect (limit never enforced) found and fixed.',
-        "note": 'Trusted: Lean kernel; hand-written pool model tied to the real ConnectionPoolService by per-op differential runs (result, marker set, waiter queues, idle lists, dial and drop counters); tokio oneshot/scheduler semantics assumed; step-level theorems hold for every state, the global ownership invariant is stated in DESIGN.md as future work where not yet proved.',
+        "note": 'Trusted: Lean kernel; hand-written pool model tied to the real ConnectionPoolService by per-op differential runs (result, marker set, waiter queues, idle lists, dial and drop counters); tokio oneshot/scheduler semantics assumed; step-level theorems hold for every state; the reachable-state invariants are listed in DESIGN.md §4 together with what is not a theorem (runtime fairness, dial-count minimality).',
         "design_ref": "DESIGN.md §4",
     },
 
